@@ -360,7 +360,7 @@ def run_task(args):
     import pyimpspec  # noqa
     n = first[1]
     ops = alphabet(n)
-    evals, fails, samples, keys = 0, {}, [], 0
+    evals, fails, samples = 0, {}, []
 
     def step(d, M, seq, op, count=True):
         """one operation + contract evaluation; returns (d2, M2) or None when violated"""
